@@ -367,7 +367,13 @@ func (e *Evaluator) evalEachStmt(node *ast.EachStmt, env *object.Env) object.Obj
 		return arrObj
 	}
 
-	elems := arrObj.(*object.Array).Elements
+	arr, isArray := arrObj.(*object.Array)
+
+	if !isArray {
+		return e.newError(node, fail.ErrEachStmtNotArray, arrObj.Type())
+	}
+
+	elems := arr.Elements
 	elemsLen := len(elems)
 
 	// evaluate alternative block if array is empty
